@@ -24,7 +24,8 @@
 (*         preserve: BOOLEAN,                                                                                  *)
 (*         node    : [vars : key -> VAL      \* Rally's own node variables as derived from its start arguments  *)
 (*                    default_data, home : STRING,                                                             *)
-(*                    watch : Seq([p : STRING, inHome : BOOLEAN (below home), pre : BOOLEAN (string prefix home)])], *)
+(*                    watch : Seq([p : STRING, inHome : BOOLEAN (below home), pre : BOOLEAN (string prefix home),     *)
+(*                                 stuck : BOOLEAN (outside the home and cannot be deleted: rmtree raises OSError)])],    *)
 (*         more    : Seq([vars, default_data, home])] \* 2nd, 3rd ... node provisioned from the SAME composed Car object *)
 (* out  = [err, names, paths, vars, final : [captured, vars], tree : path -> Seq(SEG), dataPaths, home,         *)
 (*         after : [exists : watched path -> BOOLEAN, same : BOOLEAN],                                         *)
@@ -108,9 +109,12 @@ DocContent(inp, paths, fin, p) ==
         ELSE Before(inp, p) \o [i \in DOMAIN prov |-> Seg(inp, FileAt(inp.bases[prov[i]].tree, p).cid, fin)]
 KindOf(inp, paths, p) == FileAt(inp.bases[Providers(inp, paths, p)[1]].tree, p).kind
 
+\* "removes the installation and all data paths": a data path that cannot be deleted does not keep the others (or the
+\* installation) from being removed
 DocCleanup(inp, dps, after) ==
+    LET w(p) == CHOOSE x \in ToSet(inp.node.watch) : x.p = p IN
     IF inp.preserve THEN after.same
-    ELSE ~after.exists[inp.node.home] /\ \A i \in DOMAIN dps : ~after.exists[dps[i]]
+    ELSE ~after.exists[inp.node.home] /\ \A i \in DOMAIN dps : ~w(dps[i]).stuck => ~after.exists[dps[i]]
 
 \* the per-node clauses: r = [final, tree, ...] is what provisioning a node from the composed car (documented variables vars,
 \* config bases paths) produced; nodeKeys / fin: Rally's own variables of THAT node and what its templates have to see -
@@ -264,7 +268,7 @@ CodeAfter(inp, dps) ==
     LET w(p) == CHOOSE x \in ToSet(inp.node.watch) : x.p = p
         skipped(p) == Variant = "keep_data" \/ (Variant = "prefix_skip" /\ w(p).pre)   \* seeded faults only
         gone(p) == IF inp.preserve /\ Variant # "ignore_preserve" THEN FALSE
-                   ELSE p = inp.node.home \/ w(p).inHome \/ (p \in ToSet(dps) /\ ~skipped(p))
+                   ELSE p = inp.node.home \/ w(p).inHome \/ (p \in ToSet(dps) /\ ~skipped(p) /\ ~w(p).stuck)
     IN  [exists |-> [p \in {x.p : x \in ToSet(inp.node.watch)} |-> ~gone(p)], same |-> inp.preserve /\ Variant # "ignore_preserve"]
 
 \* DockerProvisioner.__init__ / prepare / docker_vars
